@@ -35,3 +35,44 @@ package postgres
 //@   property C14
 //@   option nosafety
 //@   ensures @neverNil out != nil
+
+// ------------------------------------------------------------------ C15 / C14 / C16: ReadChanges statement (Go half)
+// as for the other SQL backends: this store's rows, the horizon predicate built from the filter's horizon offset, ulid
+// order in the requested direction, resumption through AddFromUlid with the same direction; the statement executed is
+// the one built
+//@ func (*Datastore).ReadChanges(s, ctx, store, filter, options) (res, token, err)
+//@   property C15 C14 C16
+//@   option nosafety
+//@   option defer_neutral
+//@   ensures @queried err == nil ==> ran
+//@   monitor statement
+//@     ghost storeScoped = false
+//@     ghost hz string = ""
+//@     ghost hzOK = false
+//@     ghost horizon = false
+//@     ghost ordered = false
+//@     ghost resumed = false
+//@     ghost ran = false
+//@     ghost text string = ""
+//@     after call fmt.Sprintf args f, a returning r : hz = r ; hzOK = hasPrefix(f, "inserted_at < NOW() - interval ")
+//@     after call (squirrel.SelectBuilder).Where args _, pred : storeScoped = storeScoped || pre(typeIs(pred, "squirrel.Eq") && typeIs(as(pred, "squirrel.Eq")["store"], "string") && as(as(pred, "squirrel.Eq")["store"], "string") == store) ; horizon = horizon || (typeIs(pred, "string") && as(pred, "string") == hz && hzOK)
+//@     after call (squirrel.SelectBuilder).OrderBy args _, cols : ordered = pre(len(cols) == 1 && cols[0] == (options.SortDesc ? "ulid desc" : "ulid asc"))
+//@     before call sqlcommon.AddFromUlid args _, from, desc : assert from == options.Pagination.From && desc == options.SortDesc && from != ""
+//@     after call sqlcommon.AddFromUlid : resumed = true
+//@     before call (squirrel.SelectBuilder).ToSql args _ : assert storeScoped && horizon && ordered && (options.Pagination.From != "" ==> resumed)
+//@     after call (squirrel.SelectBuilder).ToSql returning q, _, _ : text = q
+//@     before call (*pgxpool.Pool).Query args _, _, q : assert q == text
+//@     after call (*pgxpool.Pool).Query : ran = true
+
+// ------------------------------------------------------------------ C13 / C16: ReadStartingWithUser statement (Go half)
+// the statement selects this store's tuples of the filter's object type and relation, and the user clause has one
+// alternative per user-filter entry: the entry's object, followed by "#relation" exactly when the entry is a userset
+//@ func (*Datastore).ReadStartingWithUser(s, ctx, store, filter, opts) (it, err)
+//@   property C13 C16
+//@   option nosafety
+//@   option defer_neutral
+//@   monitor statement
+//@     ghost wheres int = 0
+//@     before call builtin.append:string args sl, add : assert len(add) == 1 && add[0] == (u.GetRelation() != "" ? u.GetObject() + "#" + u.GetRelation() : u.GetObject())
+//@     before call (squirrel.SelectBuilder).Where args _, pred : assert wheres == 0 ==> typeIs(pred, "squirrel.Eq") && typeIs(as(pred, "squirrel.Eq")["store"], "string") && as(as(pred, "squirrel.Eq")["store"], "string") == store && as(as(pred, "squirrel.Eq")["object_type"], "string") == filter.ObjectType && as(as(pred, "squirrel.Eq")["relation"], "string") == filter.Relation && typeIs(as(pred, "squirrel.Eq")["_user"], "[]string") && as(as(pred, "squirrel.Eq")["_user"], "[]string") == targetUsersArg
+//@     after call (squirrel.SelectBuilder).Where : wheres = wheres + 1
